@@ -1,3 +1,3 @@
-import Driver.Loop
-/-! Driver for group `frontend`: replace `[]` by this group's handlers. -/
-def main : IO Unit := TF.Driver.run []
+import Driver.Frontend
+/-! Driver for group `frontend` (C10). -/
+def main : IO Unit := TF.Driver.run [TF.Driver.handleFrontend]
